@@ -1,7 +1,8 @@
 #!/bin/bash
-# usage: confirm_seed.sh <Cxx> <k>   -- confirms a seeded change in a scratch worktree and records the outcome
+# usage: confirm_seed.sh <Cxx> <k> [srcdir [dstk]]  -- confirms a seeded change in a scratch worktree and records the outcome
 id=$1; k=$2
-src=/tmp/seeded/out/$id/$k
+src=${3:-/tmp/seeded/out/$id/$k}
+k=${4:-$k}
 dst=/verif/seeded/$id-$k
 mkdir -p $dst; cp $src/patch.diff $src/demo_test.go $src/meta.json $dst/ 2>/dev/null
 export GOFLAGS=-mod=mod GOPROXY=off GOSUMDB=off GOTOOLCHAIN=local
